@@ -2,7 +2,7 @@
 import re
 import itertools
 
-from gsa.cfg import Fn, S, is_call, walk, lit
+from gsa.cfg import Fn, S, is_call, walk, lit, cmp_pred
 from gsa import rules as R
 from props.common import split_targs
 
@@ -590,7 +590,7 @@ def net_shape(ctx, fx):
                     det.append("receives after the phase was bumped")
                 if fn.exit_reachable_without(is_call(name="incrementEvilPhase")):
                     det.append("a path leaves without bumping the phase")
-            if fn.guarded_positions(rcv, lambda t: S(t) in ("(x == this->id)",), False):
+            if fn.guarded_positions(rcv, cmp_pred("x", "==", "this->id"), False):
                 det.append("the receiver may wait for a message from itself")
         n += 1
         ctx.ob("C18.net.send-recv-shape", "syncNetRecv", not det, "; ".join(det[:3]), fn.loc(), f.get("targs", "")[-80:], fnkey=f["key"])
